@@ -38,4 +38,5 @@ def op_results(rec, upto=None):
 
 
 def standard_programs(seed, n, mode, **opts):
-    return [streams.gen_prop_program(seed, k, mode=mode, **opts) for k in range(n)]
+    # every sixth program favours connectives that hold ONE formula object in several operand slots (And(A, A), Or(A, B, A))
+    return [streams.gen_prop_program(seed, k, mode=mode, **(dict(opts, repeat_p=0.85) if k % 6 == 5 else opts)) for k in range(n)]
